@@ -1,7 +1,7 @@
 #!/bin/bash
 # confirm a sub-agent's seeded change in ITS worktree: compiles, 59 baseline tests pass, demo fails
 # with the change and passes without. usage: confirm_mutant.sh C03
-ID=$1; WT=/tmp/mut/$ID
+ID=$1; WT=/tmp/mut/$ID; [ -n "$2" ] && WT=/tmp/mut/$2
 cd $WT || exit 1
 [ -s patch.diff ] || { echo "no patch.diff"; exit 1; }
 DEMO=$(cat DEMO_CMD.txt | grep -E "cargo test" | head -1 | sed 's/^.*cargo test/cargo test/' | sed 's/`.*$//')
